@@ -93,9 +93,11 @@ func (r RemoveIntersections) processStruct(_ *Visitor, _ *ast.Schema, def ast.Ty
 		if field.Type.IsRef() {
 			if obj, ok := r.objectsToRemove[field.Type.AsRef().ReferredType]; ok {
 				def.AsStruct().Fields[i] = ast.NewStructField(field.Name, ast.NewRef(obj.SelfRef.ReferredPkg, obj.SelfRef.ReferredType), ast.Comments(obj.Comments))
+				r.keepOptionality(&def.AsStruct().Fields[i], field)
 			}
 			if obj, ok := r.arraysToFix[field.Type.AsRef().ReferredType]; ok {
 				def.AsStruct().Fields[i] = ast.NewStructField(field.Name, ast.NewArray(obj.Type.AsArray().ValueType), ast.Comments(obj.Comments))
+				r.keepOptionality(&def.AsStruct().Fields[i], field)
 			}
 
 			for hint, value := range field.Type.Hints {
@@ -105,4 +107,12 @@ func (r RemoveIntersections) processStruct(_ *Visitor, _ *ast.Schema, def ast.Ty
 	}
 
 	return def, nil
+}
+
+// keepOptionality carries the required/nullable/default attributes of the
+// original field over to its replacement.
+func (r RemoveIntersections) keepOptionality(newField *ast.StructField, original ast.StructField) {
+	newField.Required = original.Required
+	newField.Type.Nullable = original.Type.Nullable
+	newField.Type.Default = original.Type.Default
 }
